@@ -163,7 +163,13 @@ func (t *sseClientTransport) start(ctx context.Context) error {
 	go func() {
 		select {
 		case <-ctx.Done():
-			cancel()
+			// When both are ready the select picks at random: a caller that cancels its context
+			// after start() has returned must not take the stream down.
+			select {
+			case <-connected:
+			default:
+				cancel()
+			}
 		case <-connected:
 		}
 	}()
